@@ -61,11 +61,55 @@ def _has_int_or_uf(constraints, negated_claim):
     return False
 
 
+def _is_linear(t, memo):
+    i = t.get_id()
+    if i in memo:
+        return memo[i]
+    ok = True
+    if z3.is_app(t):
+        k = t.decl().kind()
+        ch = t.children()
+        if k == z3.Z3_OP_MUL:
+            nonconst = [x for x in ch if not (z3.is_rational_value(x) or z3.is_int_value(x))]
+            if len(nonconst) > 1:
+                ok = False
+        elif k in (z3.Z3_OP_DIV, z3.Z3_OP_IDIV, z3.Z3_OP_MOD):
+            if not (z3.is_rational_value(ch[1]) or z3.is_int_value(ch[1])):
+                ok = False
+        elif k == z3.Z3_OP_POWER:
+            ok = False
+        if ok:
+            for x in ch:
+                if not _is_linear(x, memo):
+                    ok = False
+                    break
+    memo[i] = ok
+    return ok
+
+
+def linear_subset(constraints):
+    memo = {}
+    return [c for c in constraints if _is_linear(c, memo)]
+
+
+def _linear_stage(constraints, neg, budget=2000):
+    """Sound shortcut: drop every nonlinear constraint; `unsat` of the weaker
+    set implies `unsat` of the full one.  Only `unsat` is used."""
+    memo = {}
+    if not _is_linear(neg, memo):
+        return False
+    lin = [c for c in constraints if _is_linear(c, memo)]
+    v, _ = _run(_mk_solver, lin, neg, budget)
+    return v == 'unsat'
+
+
 def check(constraints, negated_claim, timeout_ms, use_cvc5=True):
     """Staged: z3 default (short), nlsat tactic (short), z3 default (full),
     nlsat (full), cvc5.  returns (verdict, model_or_None, seconds, engine)"""
     t0 = time.time()
     T = timeout_ms
+    if _linear_stage(constraints, negated_claim):
+        return 'unsat', None, time.time() - t0, 'z3-linear-subset'
     pure = not _has_int_or_uf(constraints, negated_claim)
     stages = [('z3', _mk_solver, min(T, 4000))]
     if pure:
@@ -89,10 +133,12 @@ def check_batch(constraints, claims, timeout_ms):
     """One query for a group of claims: unsat => every claim of the group holds."""
     t0 = time.time()
     neg = z3.Or(*[z3.Not(c) for c in claims]) if len(claims) > 1 else z3.Not(claims[0])
+    if _linear_stage(constraints, neg):
+        return True, time.time() - t0, 'z3-linear-subset-batch'
     pure = not _has_int_or_uf(constraints, neg)
-    stages = [('z3-batch', _mk_solver, min(timeout_ms, 8000))]
+    stages = [('z3-batch', _mk_solver, min(timeout_ms, 4000))]
     if pure:
-        stages.append(('z3-nlsat-batch', _nlsat_solver, min(timeout_ms, 15000)))
+        stages.append(('z3-nlsat-batch', _nlsat_solver, min(timeout_ms, 6000)))
     for name, mk, budget in stages:
         v, m = _run(mk, constraints, neg, budget)
         if v == 'unsat':
